@@ -3,7 +3,7 @@
 (A) MC_FM: TLC explores all histories (length <= 3 quick / 4 thorough) of constructor calls in the
 implementation-shaped FormulaManager model (node table keyed by content, constant caches keyed by
 Python value equality) and checks OneObjectPerStructure, AccessorFidelity, TableInjective, CachesAgree.
-(B) TLC-enumerated / simulated call histories over the 59 documented spellings and normalisations
+(B) TLC-enumerated / simulated call histories over the 69 documented spellings and normalisations
 (FMCalls.tla) are replayed in fresh Environments, interleaved with unrelated constructions; identity
 classes and accessor read-back are logged after every call.  (C) TLC validates them against the
 denotations of FMCalls.tla (FMHistoryContract).  Cross-environment: TLC-generated terms (incl. custom
@@ -55,6 +55,10 @@ def make_calls(env):
         "Xor(p,q)": lambda: m.Xor(p(), q()), "Not(Iff(p,q))": lambda: m.Not(m.Iff(p(), q())),
         "NotEquals(x,2)": lambda: m.NotEquals(x(), m.Int(2)), "EqualsOrIff(p,q)": lambda: m.EqualsOrIff(p(), q()),
         "Iff(p,q)": lambda: m.Iff(p(), q()), "Pow(Real(2),Real(2))": lambda: m.Pow(m.Real(2), m.Real(2)), "Real(4)": lambda: m.Real(4),
+        "Real((1,3))": lambda: m.Real((1, 3)), "Real(Fraction(1,3))": lambda: m.Real(Fraction(1, 3)), "Real((2,6))": lambda: m.Real((2, 6)),
+        "Real(1/3.0)": lambda: m.Real(1 / 3.0), "Real(Fraction(1/3.0))": lambda: m.Real(Fraction(1 / 3.0)),
+        "Real((2**60+1,1))": lambda: m.Real((2 ** 60 + 1, 1)), "Real(2**60)": lambda: m.Real(2 ** 60),
+        "Real(float(2**60))": lambda: m.Real(float(2 ** 60)), "Int(2**60+1)": lambda: m.Int(2 ** 60 + 1), "Int(2**60)": lambda: m.Int(2 ** 60),
     }
 
 
@@ -112,6 +116,7 @@ def run(ck):
     hists = singles + pairs + longs
     evs = []
     eid = 0
+    term_io.SYMBOLIC_BIG = True          # only the identity of the big constants matters in this part
     for hn, h in enumerate(hists):
         pysmt.environment.reset_env()
         env = pysmt.environment.get_env()
@@ -136,6 +141,7 @@ def run(ck):
                          {"history": [names[c - 1] for c in h], "exception": repr(ex)})
         eid += 1
         ck.count()
+    term_io.SYMBOLIC_BIG = False
     # ---- cross-environment copies
     l1 = gen_corpus("L1")
     ls = gen_corpus("LS")
@@ -192,7 +198,7 @@ def run(ck):
     ck.sample({"calls": [names[c - 1] for c in evs[len(singles) + 3]["calls"]], "obs": evs[len(singles) + 3]["obs"]})
     ck.sample({"kind": "normalize", "src": evs[-1]["src"], "shared": evs[-1]["shared"]})
     ck.cov["exhaustive"] = not quick
-    ck.cov["rule"] = ("constructor-call histories over the 59 spellings/normalisations of FMCalls.tla: all singles, all ordered pairs "
+    ck.cov["rule"] = ("constructor-call histories over the 69 spellings/normalisations of FMCalls.tla: all singles, all ordered pairs "
                       "(every second pair in quick), TLC-simulated histories of length 7; each replayed in a fresh Environment, half of "
                       "them interleaved with unrelated constructions; + normalize() of TLC-generated terms into a second environment. "
                       "non-trivial = histories in which two calls returned the same object / distinct normalized terms")
